@@ -4,6 +4,7 @@ import NodisVerif.Proofs.C20ZStoreEx
 import NodisVerif.Proofs.ProtoWireMsg
 import NodisVerif.Proofs.ProtoWireBad
 import NodisVerif.Proofs.ProtoWireOut
+import NodisVerif.Proofs.ProtoWireAcct
 import NodisVerif.Model.FeedWire
 /-
   C20 — The change feed replays on a replica.
@@ -546,6 +547,21 @@ theorem decodeOp_encodeOp_iff (op : Op) (ht : op.typed = true) :
 theorem decoded_is_encodable (b : Bytes) (op : Op) (h : decodeOp b = .ok op) :
     encodeFails op = false ∧ ∃ sch, schemaOf op.typ.toNat = some sch ∧ okVals sch op.msg.vals = true :=
   ⟨decodeOp_encodable h, decodeOp_okVals h⟩
+
+/-- DecodeOp ∘ Encode ∘ DecodeOp = DecodeOp. Whatever bytes a replica accepted (shorter than 2^63, no
+    unknown fields retained): the decoded record is well-formed — byte accounting: the decoded values never
+    hold more bytes than were consumed — so its encoding is the canonical one and decodes to the same record
+    (a replica can ship a record on; non-canonical inputs are normalised after one hop) -/
+theorem decode_reencode (b : Bytes) (op : Op) (h : decodeOp b = .ok op) (hb : b.length < 2 ^ 63)
+    (hu : op.msg.unknown = []) : op.wf = true ∧ decodeOp (encodeOp op) = .ok op := by
+  have hw := decodeOp_wf h hb hu
+  exact ⟨hw, Proofs.ProtoWire.decodeOp_encodeOp hw⟩
+
+/-- hypotheses satisfiable on a non-canonical input (Expiration first and twice, over-long key length) -/
+example : decodeOp [25, 0x20, 5, 0x0a, 0x81, 0x00, 107, 0x20, 7]
+      = .ok { typ := 25, msg := { vals := [.bytes [107], .bytes [], .bool false, .int 7] } } ∧
+    encodeOp { typ := 25, msg := { vals := [.bytes [107], .bytes [], .bool false, .int 7] } } = [25, 0x0a, 1, 107, 0x20, 7] := by
+  decide +kernel
 
 /-- hypotheses satisfiable: typed, not well-formed (an element of HDEL's repeated string is not UTF-8) -/
 example : ({ typ := 6, msg := { vals := [.bytes [104], .list [[102], [0xc3, 0x28], [103]]] } } : Op).typed = true ∧
